@@ -293,10 +293,17 @@ func judgeForward(c *rig.Ctx, w *world, cs Case, id string, o Obs, record bool, 
 	if !m.Accepted || m.Upgrade {
 		return fail("diff", "c04.forward.generator", "the generator produced a target the model's server refuses, or an upgrade request")
 	}
-	if o.Err != "" {
+	if o.Inconclusive && o.NUp <= 1 {
+		c.Count("inconclusive:goaway-raced")
+		return true
+	}
+	if o.Err != "" && o.NUp <= 1 {
 		return fail("judge", noAnswerClass(cs), "the gateway did not answer: "+o.Err)
 	}
 	if o.NUp != 1 {
+		if o.Client == nil {
+			return fail("judge", "c04.forward.count", fmt.Sprintf("the request reached an upstream %d times (the client got no answer: %s)", o.NUp, o.Err))
+		}
 		return fail("judge", "c04.forward.count", fmt.Sprintf("the request reached an upstream %d times (gateway answered %d)", o.NUp, o.Client.Status))
 	}
 	if o.BodyErr != "" {
@@ -374,6 +381,9 @@ func describe(cs Case) string {
 		if cs.Req.Streamed {
 			proto += " (body of undeclared length)"
 		}
+	}
+	if cs.World != "" {
+		proto = "[chain flags: " + cs.World + "] " + proto
 	}
 	return fmt.Sprintf("%s %s %q Host=%s headers=%q body=%d/%v row=%s -> upstream %d headers=%q body=%d", proto, rig.UnHex(cs.Req.Method), rig.UnHex(cs.Req.Target),
 		rig.UnHex(cs.Req.Host), hs, cs.Req.BodyLen, cs.Req.HasBody, cs.Row, cs.Up.Status, us, cs.Up.BodyLen) + describeDelay(cs.Up.Delay)
@@ -806,10 +816,16 @@ func runUpgrade(c *rig.Ctx, w *world, cs Case, record bool) bool {
 
 func runAny(c *rig.Ctx, w *world, raw json.RawMessage, record bool) bool {
 	var k struct {
+		World  string `json:"world"`
 		Kind   string `json:"kind"`
 		Target string `json:"target"`
 	}
 	json.Unmarshal(raw, &k)
+	if k.World == "options" && !w.options {
+		if w = optionsWorld(c); w == nil {
+			return true // reduced build: the flags cannot be set
+		}
+	}
 	switch k.Kind {
 	case "url":
 		return runURL(c, rig.UnHex(k.Target), record)
@@ -1016,6 +1032,10 @@ func main() {
 		// 5. whole configurations and request sequences against the composed model (compose.go)
 		if c.NFailures() < 8 {
 			runGatewayStream(c, theGwPool())
+		}
+		// 5b. the chain with every shape-changing flag set (options.go)
+		if c.NFailures() < 8 {
+			runOptionsStream(c, files)
 		}
 		// 6. join the delayed round trips and judge them
 		if c.NFailures() < 8 {
